@@ -296,19 +296,27 @@ theorem pres_procLoop {m : Nat} {todo kept : List Nat} {any : Bool} (hJ : J s)
       · kf
   | cons e r =>
     simp only [step, hg, hpc] at h
-    split at h <;> cases h
-    · jset
+    split at h
+    · -- `processUntil`: the predicate says stop; nothing shared changes (the rest is still local)
+      cases h
+      jset
       · thgoto
       · noloc
       · same
       · kf
-    · jset
-      · thgoto
-      · noloc
-      · same
-      · kf
+    · split at h <;> cases h
+      · jset
+        · thgoto
+        · noloc
+        · same
+        · kf
+      · jset
+        · thgoto
+        · noloc
+        · same
+        · kf
 
-/-- the put-back of `processIf`: under the mutex (so no waiter is between its predicate evaluation
+/-- the put-back of `processIf` / `processUntil`: under the mutex (so no waiter is between its predicate evaluation
     and its parking); the list becomes non-empty and the thread becomes the obligation holder -/
 theorem pres_procPutBack {kept : List Nat} {any : Bool} (hJ : J s)
     (hg : getT s t = some th) (hpc : th.pc = .procPutBack kept any)
